@@ -76,6 +76,17 @@ fn verif_grid() {
                 Outcome::Panic(p) => Err(format!("{} over lines {} and {} panicked: {}", query, i, j, p)), _ => Ok(()) });
         } }
     }
+    // no qualifying row at all: empty input, only non-admitted lines, a WHERE that rejects everything - with and without HAVING / GROUP BY
+    for (ai, a) in aggregates.iter().enumerate() {
+        for (ii, input) in [b(""), b("garbage\n\n"), join_lines(&[lines[0], lines[3]])].into_iter().enumerate() {
+            for (si, shape) in ["SELECT {} AS v FROM t WHERE a > 9223372036854775806 AND a < 0", "SELECT {} AS v FROM t WHERE a IS NULL AND a IS NOT NULL HAVING COUNT(*) >= 0",
+                                "SELECT {} AS v FROM t WHERE x != x HAVING COUNT(*) > 5", "SELECT s, {} AS v FROM t WHERE a = 1 AND a = 2 GROUP BY s HAVING COUNT(*) >= 0", "SELECT {} AS v FROM t HAVING COUNT(*) > 1000"].iter().enumerate() {
+                let (query, input) = (shape.replace("{}", a), input.clone());
+                g.case(&format!("no-row-agg{}-i{}-s{}", ai, ii, si), move || match run_opts(DEF, &query, &[input], json_opts()) {
+                    Outcome::Panic(p) => Err(format!("{} over an input without a qualifying row panicked: {}", query, p)), _ => Ok(()) });
+            }
+        }
+    }
     // bytes that are not text
     for (i, bytes) in vec![vec![0xffu8, 0xfe, b'\n', b'a', b'=', b'1'], vec![0u8; 10], (0u8..=255).collect::<Vec<u8>>()].into_iter().enumerate() {
         g.case(&format!("bytes-{}", i), move || match run_opts(DEF, "SELECT a, input FROM t", &[bytes], json_opts()) { Outcome::Panic(p) => Err(format!("arbitrary bytes: panic {}", p)), _ => Ok(()) });
